@@ -126,6 +126,12 @@ fn run_ctx<Ctx: Cx>(rep: &Report, ctxname: &'static str, n: usize, alpha: Alphab
                 Err(_) => return cen,
             };
             let base = ms.ty.corr.base;
+            if t.keys().len() > 4 {
+                // two 2-of-3 multisigs: the input alphabet (a signature per key) makes the stack search
+                // exceed its state cap; bounded out explicitly instead of reported as capped
+                bump(&mut cen, "fragments_with_more_than_4_keys_skipped");
+                return cen;
+            }
             if base == Base::K {
                 bump(&mut cen, "k_terms_judged_through_c_wrapper");
                 return cen;
@@ -330,7 +336,7 @@ pub fn run(tier: Tier) -> i32 {
         rep.get("library_types_confirmed"),
         rep.get("fragment_explorations"),
         rep.get("library_types_confirmed").min(rep.get("paths_completed")),
-        "every well-typed term of every base type up to the node bound in Segwitv0, Legacy and Tap: ALL input stacks over the alphabet explored on the fragment script (consensus and standard flags); every label of the library type and of the specification-table type checked on every complete path. non-trivial = fragments whose exploration completed with at least one complete path",
+        "every well-typed term (at most 4 keys) of every base type up to the node bound in Segwitv0, Legacy and Tap: ALL input stacks over the alphabet explored on the fragment script (consensus and standard flags); every label of the library type and of the specification-table type checked on every complete path. non-trivial = fragments whose exploration completed with at least one complete path",
         true,
     )
 }
